@@ -1627,16 +1627,27 @@ impl StorageEngine {
                             result.truncate(n);
                             result
                         } else {
-                            // -i64::MIN is not representable; no allocation sized by the request
+                            // -i64::MIN is not representable; no allocation sized by the request.
+                            // Drawing with repetition makes the reply as large as the request says,
+                            // whatever the set holds: more than 2^20 draws, or a reply above 512 MB
+                            // (the largest value), would keep the command thread busy and are refused
+                            const MAX_DRAWS: i64 = 1 << 20;
+                            const MAX_REPLY_BYTES: usize = 512 * 1024 * 1024;
+                            let out_of_range = || FerrousError::Command(CommandError::Generic(
+                                "value is out of range".to_string()
+                            ));
                             let n = match count.checked_neg() {
-                                Some(n) => n as usize,
-                                None => return Err(FerrousError::Command(CommandError::Generic(
-                                    "value is out of range".to_string()
-                                ))),
+                                Some(n) if n <= MAX_DRAWS => n as usize,
+                                _ => return Err(out_of_range()),
                             };
                             let mut result = Vec::new();
+                            let mut reply_bytes = 0;
                             for _ in 0..n {
                                 if let Some(member) = members.choose(&mut rng) {
+                                    reply_bytes += member.len();
+                                    if reply_bytes > MAX_REPLY_BYTES {
+                                        return Err(out_of_range());
+                                    }
                                     result.push(member.clone());
                                 }
                             }
